@@ -129,6 +129,16 @@ func ops08(quick bool) []op08 {
 				}
 				return m
 			}),
+			mut08(i, "RemoveRange(0, 2 chunks)", func(b *roaring.Bitmap, m *model.Set32) *model.Set32 {
+				b.RemoveRange(0, 2<<16)
+				m.RemoveRange(0, 2<<16)
+				return m
+			}),
+			mut08(i, "RemoveRange(5, chunk 1 + 5)", func(b *roaring.Bitmap, m *model.Set32) *model.Set32 {
+				b.RemoveRange(5, 1<<16+5)
+				m.RemoveRange(5, 1<<16+5)
+				return m
+			}),
 			mut08(i, "Flip(100, 70000)", func(b *roaring.Bitmap, m *model.Set32) *model.Set32 {
 				b.Flip(100, 70000)
 				m.FlipRange(100, 70000)
